@@ -27,7 +27,8 @@ Import ListNotations. Open Scope Z_scope. Open Scope string_scope.
 
 (* A cached parse equals a fresh parse, in every process state reachable by running any
    recipes (failing ones included), for every key of both caches.  (Since fix fc3a5e8 the clock
-   keys "now" / "today" never reach the datetime cache: C19_clock_keys_not_cached.) *)
+   keys "now" / "today", and since bfa3786 Faker's relative specs such as "-30d", never reach the
+   datetime cache: C19_clock_keys_not_cached, with is_clock_key = now | today | is_relative_spec.) *)
 Theorem C19_cache_coherent :
   forall (parse_d parse_dt : key -> option Z) (h : list (env * recipe)) (k : key),
     let p := after parse_d parse_dt h in
@@ -205,6 +206,23 @@ Example C19_ex_state :
 Proof. vm_compute. repeat split; reflexivity. Qed.
 
 (* lru eviction: with maxsize 2 the least recently used key is dropped *)
+(* the recogniser of Faker's relative syntax *)
+Example C19_ex_relative_specs :
+  map is_relative_spec ["-30d"; "+1y"; "-1w+2h"; "+1y-2M+3w-4d+5h-6m+7s"; "+15m"; "+3M"]
+    = [true; true; true; true; true; true] /\
+  map is_relative_spec [""; "30d"; "now"; "+1d "; "1h30m"; "+d"; "-1d+2w"; "+1d+1d"; "+1x"; "+"; "2020-01-05"]
+    = [false; false; false; false; false; false; false; false; false; false; false].
+Proof. split; vm_compute; reflexivity. Qed.
+
+(* a relative spec in a later run is read against that run's clock *)
+Example C19_regression_relative_spec_not_cached :
+  let r := mkRecipe SExec None [ORow "A"; ODatetime "-30d"; ODatetime "-30d"] in
+  snd (run (fun _ => None) (fun _ => None)
+           (after (fun _ => None) (fun _ => None) [(mkEnv 1 0 None, r)]) (mkEnv 2 0 None) r)
+  = mkOut [BId "A" 1; BVal 2; BVal 2] None /\
+  p_dts (after (fun _ => None) (fun _ => None) [(mkEnv 1 0 None, r)]) = lru_empty.
+Proof. split; vm_compute; reflexivity. Qed.
+
 Example C19_ex_lru :
   let f := fun k : key => Some (Z.of_nat (String.length k)) in
   let c1 := fst (lru_call 2 f lru_empty "a") in
